@@ -124,6 +124,15 @@ def e2e_pair(q, p, rows, declared="hour"):
     return routed, rr, rb, sql_r
 
 
+def e2e_two(q1, q2, p, rows):
+    """the time dimension requested at TWO granularities in one query, on a rollup at p: (routed?, routed rows, base rows, routed sql)"""
+    layer = build_layer(p, rows)
+    kw = dict(metrics=["ev.total", "ev.n"], dimensions=["ev.ts__" + q1, "ev.ts__" + q2])
+    sql_r = layer.compile(use_preaggregations=True, **kw)
+    sql_b = layer.compile(use_preaggregations=False, **kw)
+    return "ev_preagg_r" in sql_r, dbutil.canon_rows(layer.conn.execute(sql_r).fetchall()), dbutil.canon_rows(layer.conn.execute(sql_b).fetchall()), sql_r
+
+
 def edited_rollup(q, p1, p2, rows, how):
     """history: a rollup declared at p1 answers a query (whatever is remembered is remembered now), then its granularity is edited to p2 -- in place, or by
     replacing it with model_copy(update=...) as configuration reloads do -- and the table rebuilt; the same query again.  Returns (routed, routed_rows, base_rows)."""
@@ -242,6 +251,26 @@ def run(c):
                                     {"kind": "e2e", "q": q, "p": p, "declared": declared, "rows": rows, "routed_sql": sql_r, "differing_rows": diff})
                 if len(c.samples) < 4 and routed and q != p:
                     c.samples.append({"query_granularity": q, "rollup_granularity": p, "routed": routed, "rows_equal": rr == rb, "n_base_rows": len(rows), "n_result_rows": len(rb)})
+    # 5a. two granularities of the time dimension in one query (both orders): routed only if BOTH can be derived, and then with the same rows
+    twos = 0
+    rows2 = e2e_rows(c.rng)
+    for p in NAMES:
+        for q1 in NAMES:
+            for q2 in NAMES:
+                if q1 == q2 or (c.tier == "quick" and "week" not in (q1, q2, p) and (NAMES.index(q1) + NAMES.index(q2) + NAMES.index(p)) % 3):
+                    continue
+                try:
+                    routed, rr, rb, sql_r = e2e_two(q1, q2, p, rows2)
+                except Exception as e:
+                    c.violation("a query at %s and %s on a %s rollup fails: %s" % (q1, q2, p, str(e)[:120]), {"kind": "two_grans", "q1": q1, "q2": q2, "p": p, "rows": rows2})
+                    continue
+                twos += 1
+                if routed and rr != rb:
+                    c.violation("a query asking for %s and %s is routed to a %s rollup and returns different rows than the base table" % (q1, q2, p),
+                                {"kind": "two_grans", "q1": q1, "q2": q2, "p": p, "rows": rows2, "routed_sql": sql_r, "differing_rows": [x for x in rr if x not in rb][:3] + [x for x in rb if x not in rr][:3]})
+                if routed and not (py_compatible(q1, p) and py_compatible(q2, p)):
+                    c.notes.append("routed although _is_granularity_compatible refuses one of (%s, %s) on %s" % (q1, q2, p))
+    evals += twos
     # 5b. the rollup's granularity is edited after it has answered a query: the verdict must be the one for the NEW granularity
     edits = 0
     rows = e2e_rows(c.rng)
@@ -306,6 +335,10 @@ def replay(path):
         return 1 if routed and rr != rb else 0
     if r.get("kind") == "edited":
         return replay_edited(r)
+    if r.get("kind") == "two_grans":
+        routed, rr, rb, _ = e2e_two(r["q1"], r["q2"], r["p"], [tuple(x) for x in r["rows"]])
+        print("routed:", routed, "equal:", rr == rb)
+        return 0 if (not routed or rr == rb) else 1
     if r.get("kind") == "history":
         b = py_compatible(r["q"], r["p"])
         exercise_shared_tables()
